@@ -49,7 +49,8 @@ def cdep(repo, chk):
                      all(isinstance(x, ast.Subscript) for x in (t.left, t.comparators[0])) for t, pol in gs)
         chk.ob('CDEP', fi, s, 'blank may be skipped only when the neighbouring labels differ', differ,
                'enclosing tests: %s' % [src(t) for t, p in gs], construct='skip needs different labels')
-        odd = any(pol and 'i % 2 == 1' in ' '.join(src(t).split()) for t, pol in gs)
+        row = src(s.targets[0].slice.elts[0])
+        odd = any(pol and ('%s %% 2 == 1' % row) in ' '.join(src(t).split()) for t, pol in gs)
         chk.ob('CDEP', fi, s, 'skip transitions start in label states only (odd states)', odd, construct='skip from label states')
 
 
@@ -66,9 +67,12 @@ def guard(repo, chk):
     ok2 = isinstance(t.ast.ops[0], ast.Eq) and any(call_name(c) in ('np.amin', 'np.min', 'min') for c in ast.walk(t.ast) if isinstance(c, ast.Call))
     chk.ob('GUARD', fi, t.ast, 'the test looks at the minimum over the final states', ok2, construct='infeasible test = min')
     fi2 = repo.func(F + ':complete_state_seq')
-    first = fi2.node.body[0]
-    ok = isinstance(first, ast.If) and isinstance(first.test, ast.Compare) and isinstance(first.test.ops[0], ast.In) and any(isinstance(s, ast.Raise) for s in first.body)
-    chk.ob('GUARD', fi2, first, 'blank among the labels is rejected first', ok, construct='blank in labels raises')
+    cfg2 = fi2.cfg
+    tests = [n for n in cfg2.nodes if n.kind == 'test' and isinstance(n.ast, ast.Compare) and isinstance(n.ast.ops[0], ast.In)
+             and src(n.ast.left) == fi2.params[1] and src(n.ast.comparators[0]) == fi2.params[0]]
+    ok = bool(tests) and all(cfg2.nodes[m].kind == 'raise' for m, lab in cfg2.succ[tests[0].id] if lab is True) and \
+        all(cfg2.must_pass(r.id, [tests[0].id], skip_exc=True) for r in cfg2.nodes if r.kind == 'return')
+    chk.ob('GUARD', fi2, tests[0].ast if tests else fi2.node, 'blank among the labels is rejected before anything is returned', ok, construct='blank in labels raises')
     fi3 = repo.func(F + ':hmm_trans_from_string')
     ok = any(isinstance(s, ast.If) and any(isinstance(x, ast.Raise) for x in s.body) and '< 1' in src(s.test) or '== 0' in src(s.test)
              for s in fi3.node.body if isinstance(s, ast.If))
